@@ -116,6 +116,48 @@ end
 /-- `(write d)` -/
 def write (d : Datum) : Text := writeAt 0 d
 
+/-! ### `print` (`#%print` / `#%top-level-print` of crates/steel-core/src/scheme/print.scm)
+
+The second writer of the tree, and the only one that quotes symbols: a symbol whose name contains a whitespace
+character (`char-whitespace?` = Rust's `char::is_whitespace`) is printed between bars, every `|` of the name
+preceded by a backslash (nothing else is escaped, in particular not the backslash); any other symbol is printed
+bare.  Strings and characters go through `write`; lists, vectors and pairs are printed structurally; the whole
+datum is preceded by a quote mark.  Modelled for the fragment the check generates (no nesting limit, no cycles,
+a pair's cdr is not a pair). -/
+
+def printSymBody : Text → Text
+  | [] => []
+  | c :: cs => if c == '|' then '\\' :: '|' :: printSymBody cs else c :: printSymBody cs
+
+def printSym (s : Text) : Text :=
+  if s.any isWs then '|' :: (printSymBody s ++ ['|']) else s
+
+mutual
+def printAt : Datum → Text
+  | .sym s => printSym s
+  | .list xs => '(' :: (printSeq xs ++ [')'])
+  | .vec xs => '#' :: '(' :: (printSeq xs ++ [')'])
+  | .pair a d => '(' :: (printAt a ++ ' ' :: '.' :: ' ' :: (printAt d ++ [')']))
+  | .int i => writeInt i
+  | .rat n d => writeInt n ++ '/' :: decDigits d
+  | .bool b => if b then t!"#true" else t!"#false"
+  | .chr c => writeChar c
+  | .str s => writeStr s
+  | .bytes bs => '#' :: 'u' :: '8' :: '(' :: (writeBytes bs ++ [')'])
+  | .flo r => writeReal r
+  | .other w => w
+def printSeq : List Datum → Text
+  | [] => []
+  | [x] => printAt x
+  | x :: y :: r => printAt x ++ ' ' :: printSeq (y :: r)
+end
+
+/-- `(print d port)`: symbols, lists, pairs and vectors are preceded by a quote mark, other atoms are not -/
+def print (d : Datum) : Text :=
+  match d with
+  | .sym _ | .list _ | .pair _ _ | .vec _ => '\'' :: printAt d
+  | _ => printAt d
+
 /-! ### the mechanism as it is in the Rust: one mutable nesting counter
 
 `format_with_cycles` does `self.depth += 1` on entry, prints `...` (after undoing the increment) when the
